@@ -55,6 +55,8 @@ func init() {
 		"fmt.Print":    extDiscardPrint,
 
 		"strings.Contains":                 extContains,
+		"strings.HasPrefix":                extHasPrefix,
+		"internal/stringslite.HasPrefix":   extHasPrefix,
 		"strings.ToLower":                  extToLower,
 		"strings.ToUpper":                  extToUpper,
 		"internal/bytealg.IndexByte":       extIndexByte,
@@ -88,6 +90,7 @@ func init() {
 		"os.Getenv":             func(fr *frame, a []value) value { return "" },
 		"os.LookupEnv":          func(fr *frame, a []value) value { return tuple{"", false} },
 		"syscall.Getenv":        func(fr *frame, a []value) value { return tuple{"", false} },
+		"encoding/json.Marshal": extJSONMarshal,
 		"strconv.ParseUint":     extParseUint,
 		"strconv.Atoi":          extAtoi,
 		"fmt.Sscanf":            extSscanf,
@@ -1143,4 +1146,53 @@ func extDebug(fr *frame, args []value) value {
 	}
 	fmt.Fprintf(os.Stderr, "DEBUG %s: %s\n", toString(args[0]), strings.Join(parts, " | "))
 	return nil
+}
+
+// strings.HasPrefix as one boolean term; strings with decimal segments are compared on
+// their leading concrete part.
+func extHasPrefix(fr *frame, args []value) value {
+	i := fr.i
+	s, p := args[0], args[1]
+	if hasDec(p) {
+		panic(engineError("HasPrefix: prefix with a decimal segment"))
+	}
+	lp := strLen(p)
+	if lp == 0 {
+		return true
+	}
+	if hasDec(s) {
+		elems := s.(symstr).b
+		lead := leadingConcrete(elems)
+		n := lp
+		if lead < n {
+			n = lead
+		}
+		r := i.strEq(mkstr(elems[:n]), strSlice(p, 0, n))
+		if r == false {
+			return false
+		}
+		if lp <= lead {
+			return r
+		}
+		panic(engineError("HasPrefix: prefix extends into a decimal segment"))
+	}
+	if strLen(s) < lp {
+		return false
+	}
+	return i.strEq(strSlice(s, 0, lp), p)
+}
+
+// encoding/json.Marshal for values whose type provides MarshalJSON: the result is what
+// that method returns (the real Marshal only validates and compacts it). Everything
+// else needs reflection and is not modelled.
+func extJSONMarshal(fr *frame, args []value) value {
+	it, ok := args[0].(iface)
+	if !ok || it.t == nil {
+		panic(engineError("json.Marshal of nil"))
+	}
+	res, ok := fr.i.invoke(fr, it, "MarshalJSON")
+	if !ok {
+		panic(engineError("json.Marshal of " + it.t.String() + " (no MarshalJSON method; reflection-based encoding is not modelled)"))
+	}
+	return res
 }
